@@ -9,6 +9,8 @@ from .reward_common import HOLDERS, RSTATE, LEDGER, accrual_roles, split_sum, ho
 def run(prog, world, sem, rep):
     rep.rule("C15.a", "settle-before-mutate: IncreaseBalance / DecreaseBalance add to pending_rewards the accrual computed from the holder's "
              "*previous* balance and index, set Holder.index := State.global_index and only change the balance by the message amount", 6)
+    rep.rule("C15.c", "rewards already accrued stay with their holder: no message removes a holder record (a record may carry settled "
+             "pending_rewards), and claim is the only message that lowers pending_rewards", 9)
     rep.rule("C15.b", "every accrual is (State.global_index - Holder.index) x Holder.balance of one and the same holder record; the record is "
              "keyed by the message address (mirroring) resp. info.sender (claim, query)", 4)
 
@@ -35,6 +37,25 @@ def run(prog, world, sem, rep):
         kl = [x["key"] for x in ents if x["cell"] == HOLDERS]
         okk = len(keys) == 1 and kl and kl[0] is not None and kl[0][0] == "param" and kl[0][4] == ("address",) and hk == kl[0]
         rep.ob("C15.b", "reward::%s holder record keyed by msg.address" % v, okk, "written keys %s, accrual holder %s" % (sorted(keys), hk), where(ex))
+
+    from .common import msg_enum
+    adt_path, adt = msg_enum(prog, ex)
+    for vn in [x["name"] for x in adt["variants"]]:
+        vv = explore(sem, ex, variant_env(prog, ex, vn))
+        eff2 = storage_effects(sem, vv)
+        rm = [where(v.body, bb) for (v, bb, kind, cell, key, val, e) in eff2 if cell == HOLDERS and kind == "remove"]
+        bad = []
+        if rm:
+            bad.append("holder record removed at %s" % rm)
+        for x in ledger_entries(sem, eff2, {HOLDERS: ["pending_rewards"]}):
+            w0 = x["what"]
+            if w0[0] == "preserved" or x["kind"] == "remove":
+                continue
+            if vn == "ClaimRewards":
+                continue
+            if not (w0[0] == "delta" and w0[1] == 1):
+                bad.append("pending_rewards %s by %s" % (w0[0], vn))
+        rep.ob("C15.c", "reward::%s keeps accrued rewards with the holder" % vn, not bad, "; ".join(bad) if bad else "no removal; pending_rewards only grows", where(ex), key="C15.c | reward::%s" % vn)
 
     # claim and the AccruedRewards query use the same accrual on the caller's / queried record
     vs = explore(sem, ex, variant_env(prog, ex, "ClaimRewards"))
